@@ -71,6 +71,16 @@ CHECKS = {
   text="Exploration: each documented built-in is called with generated arguments (numbers with different digit counts, signs and int/float mixes; arrays of mixed values with the case flag; arbitrary strings and separators; every value type; instants from year 1 to 9999 in six time zones and with TZ unset, also as time.Time fields) passed as literals, variables or fields, and with every wrong arity 0-4 and wrong argument types; results must equal a reference implementation written from the README, the laws between(v,lo,hi)==(lo<=v&&v<=hi), min<=max and join(split(s,d),d)==s must hold inside the language, and sort/reverse must return an ordered permutation leaving their input unchanged.",
   note="time/tzdata is linked into the harness so zones resolve offline; min/max of equal numbers of different type, and of non-numbers, are accepted either way. Behaviour the README does not fix (int() of a float, replace with an invalid pattern) is pinned and an error is accepted instead.",
   ref="DESIGN.md §3 C17"),
+ "C04": dict(
+  technique="property-based testing: struct types generated at run time (reflect.StructOf), maps and JSON documents, expected script view computed from the Go values; object sequences on one evaluator",
+  text="Exploration: struct types with 0-8 exported fields in random order over all supported kinds (int, int64, float32/64, string, bool, time.Time, typed slices, []interface{}, nested map[string]interface{}) and over unsupported kinds (uint*, int8/16/32, complex, pointers, nested structs, arrays, chan, func, interfaces, other maps, slices/maps with unsupported elements) are built with reflect.StructOf, filled by reflection, passed by value, by pointer, as map[string]interface{} (also behind a pointer) and as JSON documents decoded by encoding/json; 1-4 different objects are run in sequence on one evaluator with scripts returning F, type(F), len(F), F[i], A.B, [F, G], 'x in F', with the legacy $ prefix, and with a same-named SetVariable value. Each run must return the (type, printed form, structure) computed from THAT object's Go value; naming an unrepresentable field must give null or an error, never a panic or a nil object, from Execute and from Run. A fixed list of odd objects (nil, typed nil, scalars, channels, unexported and embedded fields, map[string]string, ...) must not crash either and leave the evaluator usable.",
+  note="Slices whose element kind is unsupported are only required not to crash (the statement promises loss-free conversion only for the listed kinds). An object carrying an unsupported field may make the whole run fail (error), which is accepted.",
+  ref="DESIGN.md §3 C04"),
+ "C20": dict(
+  technique="property-based and differential testing of the API (Run vs Execute, variable round trips, host-function call protocol, flag handling) and of the CLI binary built from the current tree against in-process Execute",
+  text="Exploration: (1) generated programs and objects, incl. objects with unrepresentable fields: Run fails exactly when Execute fails and otherwise returns the truth of Execute's value; (2) SetVariable before/after Prepare for every value type is what the script reads and what GetVariable returns, script assignments are read back, unassigned names are null, variables shadow fields; (3) host functions of arity 0-6 returning any type or void are called once per call execution with the script's arguments in order, their result is the call's value, void leaves nothing (and is an error as an operand); (4) only NoOptimize among all flag bytes/slices changes the compiled program (hook digest) and the NoOptimize program still contains unfolded arithmetic; (5) the evalfilter binary is built from /repo and 'run [-json] [-no-optimizer] [-timeout]' must print exactly the type/value/truth or error class that Execute gives in-process for the decoded document; endless scripts stop within 3 s under -timeout 100ms; lex/parse/bytecode/run on arbitrary bytes, token soup and arbitrary (also invalid) JSON exit with status 0 and no Go panic within 10 s.",
+  note="CLI cases are process spawns (hundreds, not thousands, in the quick tier). Host functions are not available through the CLI, so CLI scripts are generated without them.",
+  ref="DESIGN.md §3 C20"),
 }
 
 def main():
